@@ -195,6 +195,20 @@ def build_seq(desc, mf=True):
 BUILDERS = {"arc": build_arc, "path": build_path, "seq": build_seq}
 
 
+def corner_cases():
+    """Deterministic hand-made descriptions outside the random family: no customer at all, a time
+    grid with a repeated point, a single customer with a negative-cost loop."""
+    base = {"nodes": [("D", 0, 0, INF)], "depot_first": True, "arcs": [("D", "D", 1, -3)], "time_points": [2, 0, 1],
+            "V": 1, "L": 3, "strict": True, "routes": [["D", "D"]], "vehicle_cap": 5, "initial_loading": 5,
+            "make_feasible": None, "mf_mode": "fresh", "np_seed": 1, "cost_scale": 1}
+    dup = dict(base, nodes=[("D", 0, 0, INF), ("c1", 1, 0, 3)], arcs=[("D", "c1", 1, 2), ("c1", "D", 1, -1)],
+               time_points=[0, 1, 1, 3], routes=[["D", "c1", "D"]])
+    neg = dict(dup, arcs=[("D", "c1", 0, -4), ("c1", "D", 0, -5), ("D", "D", 0, -1)], time_points=[3, 0, 2], L=4, V=2)
+    for desc in (base, dup, neg):
+        for kind in KINDS:
+            yield kind, dict(desc)
+
+
 # --------------------------------------------------------------------------- exact views
 def exact(v):
     """float / numpy scalar / int -> int if integral, else Fraction (exact, no rounding)."""
